@@ -649,8 +649,9 @@ def evaluate(ctx, pq, case):
     Tlib = np.asarray(st.interferometer)
     if Tlib.shape != T.shape or float(np.abs(Tlib - T).max()) > 1e-12 * max(1, len(case["gates"])) * 8:
         dev = float("nan") if Tlib.shape != T.shape else float(np.abs(Tlib - T).max())
-        ctx.viol("transmission-matrix-differs:%s" % ",".join(sorted({g["t"] for g in case["gates"] if g["t"] != "PostSelectPhotons"})),
-                 "state.interferometer differs from the product of the embedded instruction matrices by %.3e" % dev, case)
+        ctx.viol("transmission-matrix-differs:%s" % ("with-loss-instructions" if lossy else "lossless"),
+                 "state.interferometer differs from the product of the embedded instruction matrices by %.3e; gates %s" % (
+                     dev, [[g["t"], g["m"]] for g in case["gates"]]), case)
     if int(st.d) != len(active) or int(st._config.cutoff) != cutoff_act or bool(st.is_lossy) != bool(lossy):
         ctx.viol("state-shape:d-cutoff-lossy-flag", "state has d=%s cutoff=%s is_lossy=%s, expected d=%d cutoff=%d is_lossy=%s" % (
             st.d, st._config.cutoff, st.is_lossy, len(active), cutoff_act, lossy), case)
@@ -991,7 +992,7 @@ def run_shard(spec):
     rng = np.random.default_rng([int(spec["seed"]), 5, int(spec["shard"])])
     ctx = Ctx()
     t0 = time.time()
-    budget = 110 if spec["tier"] == "quick" else 200
+    budget = 110 if spec["tier"] == "quick" else 165
     cutoff_observation(ctx, pq)
     for i in range(int(spec["count"])):
         if time.time() - t0 > budget:
